@@ -488,6 +488,16 @@ def cidCharDisp (vertical : Bool) (w2 : List WElem) (dw2 : Option (List WVal)) (
     | .error e => .error e
   else .ok .zero
 
+/-! ## `PDFCIDFont.to_unichr` with a ToUnicode stream, text of a shown string -/
+
+/-- `self.unicode_map.get_unichr(cid)` on the parsed ToUnicode map: the map is consulted with the **CID**
+(`none` = `PDFUnicodeNotDefined`, rendered as `(cid:N)`). -/
+def toUnichr (m : UMap) (cid : Nat) : Option (List Nat) := m.lookup (cid : Int)
+
+/-- Text of the glyphs of a shown string: `font.decode(s)` (the encoding CMap), then `to_unichr` per CID. -/
+def shownText (decode : Bytes → List Nat) (m : UMap) (s : Bytes) : List (Option (List Nat)) :=
+  (decode s).map (toUnichr m)
+
 /-! ## Pen movement of `render_string_horizontal / _vertical` (multibyte font, `Tc = 0`, `Tz = 100`) -/
 
 inductive SeqItem where
